@@ -7,11 +7,6 @@ Open Scope Z_scope.
 
 (* ------------------------------------------------------------------ generic lists *)
 
-Inductive sublist {A} : list A -> list A -> Prop :=
-| sub_nil : forall l, sublist [] l
-| sub_skip : forall x l1 l2, sublist l1 l2 -> sublist l1 (x :: l2)
-| sub_take : forall x l1 l2, sublist l1 l2 -> sublist (x :: l1) (x :: l2).
-
 Lemma Forall_app_iff {A} (P : A -> Prop) l1 l2 : Forall P (l1 ++ l2) <-> Forall P l1 /\ Forall P l2.
 Proof. apply Forall_app. Qed.
 
@@ -74,141 +69,772 @@ Proof.
     clear - H Hin. induction H; [contradiction| right; auto | destruct Hin as [->|]; [left; reflexivity| right; auto]].
 Qed.
 
-(* ------------------------------------------------------------------ safety invariant *)
+(* ------------------------------------------------------------------ data-carrying invariants *)
 
-(* authentic = a function of the publication log *)
-Definition auth_sub (log : list change) (m : submsg) : Prop :=
-  match m with SData c => In c log | SFrag c _ => In c log | _ => True end.
-Definition auth_dg (log : list change) (d : dgram) : Prop := Forall (auth_sub log) (dg_subs d).
+(* Generic part: a predicate P on changes (and Q on the sequence number named by a NACK_FRAG) that
+   holds for every change the writer may transmit holds for everything in flight, buffered and
+   presented.  Instances: P = "belongs to the publication log" (authenticity, safety) and
+   P = "sequence number above the match boundary" (VOLATILE readers). *)
+Section DataInv.
+Variable P : change -> Prop.
+Variable Q : Z -> Prop.
+Hypothesis PQ : forall c, P c -> Q (c_sn c).
 
-(* reader side: the presented list is authentic, strictly increasing and bounded by
-   highest_received_change_sn; buffered fragments are authentic *)
-Definition WOk (log : list change) (w : wproxy) (pres : list change) : Prop :=
-  Forall (fun c => In c log) pres /\
+Definition data_sub (m : submsg) : Prop :=
+  match m with SData c => P c | SFrag c _ => P c | SNack sn _ _ _ => Q sn | _ => True end.
+Definition data_dg (d : dgram) : Prop := Forall data_sub (dg_subs d).
+
+(* reader side: the presented list satisfies P, is strictly increasing and bounded by
+   highest_received_change_sn; buffered fragments satisfy P *)
+Definition WOk (w : wproxy) (pres : list change) : Prop :=
+  Forall P pres /\
   StronglySorted Z.lt (sns pres) /\
   Forall (fun c => c_sn c <= wp_hr w) pres /\
-  Forall (fun f => In (fst f) log) (wp_frags w).
+  Forall (fun f => P (fst f)) (wp_frags w).
 
-Definition RInv (log : list change) (r : reader) : Prop :=
+Definition RInv (r : reader) : Prop :=
   match rd_wp r with
   | None => rd_pres r = []
-  | Some w => WOk log w (rd_pres r)
+  | Some w => WOk w (rd_pres r)
   end.
+
+(* --- everything the writer emits is cut from changes it holds (and relevant ones on the reliable path) *)
+Lemma data_frag_dgrams c k extra :
+  P c -> Forall data_sub extra -> Forall data_dg (frag_dgrams c k extra).
+Proof.
+  intros Hc He. unfold frag_dgrams. apply Forall_app; split.
+  - apply Forall_forall. intros d Hd. apply in_map_iff in Hd. destruct Hd as [i [<- _]].
+    unfold data_dg; cbn. constructor; [exact Hc|constructor].
+  - constructor; [|constructor]. unfold data_dg; cbn. constructor; assumption.
+Qed.
+
+Lemma lookup_relevant_in p n chs c : lookup_relevant p n chs = Some c -> In c chs /\ c_sn c = n /\ rp_fr p < n.
+Proof.
+  unfold lookup_relevant. intros H. apply find_some in H. destruct H as [H1 H2].
+  apply andb_prop in H2. destruct H2 as [H2 H3]. apply Z.eqb_eq in H2. apply Z.ltb_lt in H3. tauto.
+Qed.
+Lemma find_change_in n chs c : find_change n chs = Some c -> In c chs /\ c_sn c = n.
+Proof. unfold find_change. intros H. apply find_some in H. destruct H as [H1 H2]. apply Z.eqb_eq in H2. tauto. Qed.
+
+Lemma unsent_rel_data fr fuel cf now chs : (forall c, In c chs -> fr < c_sn c -> P c) ->
+  forall p acc, rp_fr p = fr -> Forall data_dg acc -> Forall data_dg (snd (unsent_rel fuel cf now chs p acc)).
+Proof.
+  intros Hi. induction fuel as [|f IH]; intros p acc Hfr Ha; cbn; [assumption|].
+  destruct (next_unsent p chs) as [n|]; [|assumption].
+  destruct (rp_hs p + 1 <? n).
+  - unfold gen_hb. apply IH; [exact Hfr|]. apply Forall_app; split; [assumption|].
+    constructor; [|constructor]. unfold data_dg; cbn. repeat constructor.
+  - destruct (lookup_relevant p n chs) as [c|] eqn:El.
+    + apply lookup_relevant_in in El. destruct El as (Hin & Hsn & Hlt).
+      assert (Pc : P c) by (apply Hi; [assumption|lia]). unfold gen_hb.
+      destruct (1 <? nfrags cf c); apply IH; try exact Hfr; apply Forall_app; split; try assumption.
+      * apply data_frag_dgrams; [assumption| repeat constructor].
+      * constructor; [|constructor]. unfold data_dg; cbn. repeat constructor. exact Pc.
+    + apply IH; [exact Hfr|]. apply Forall_app; split; [assumption|].
+      constructor; [|constructor]. unfold data_dg; cbn. repeat constructor.
+Qed.
+
+Lemma req_loop_data fr fuel cf now chs : (forall c, In c chs -> fr < c_sn c -> P c) ->
+  forall p acc, rp_fr p = fr -> Forall data_dg acc -> Forall data_dg (snd (req_loop fuel cf now chs p acc)).
+Proof.
+  intros Hi. induction fuel as [|f IH]; intros p acc Hfr Ha; cbn; [assumption|].
+  destruct (zmin_list (rp_req p)) as [n|]; [|assumption].
+  match goal with |- context [lookup_relevant ?q n chs] => destruct (lookup_relevant q n chs) as [c|] eqn:El end.
+  - apply lookup_relevant_in in El. destruct El as (Hin & Hsn & Hlt). cbn in Hlt.
+    assert (Pc : P c) by (apply Hi; [assumption|lia]). unfold gen_hb.
+    destruct (1 <? nfrags cf c); apply IH; try exact Hfr; apply Forall_app; split; try assumption;
+      (constructor; [|constructor]); unfold data_dg; cbn; repeat constructor; exact Pc.
+  - apply IH; [exact Hfr|]. apply Forall_app; split; [assumption|].
+    constructor; [|constructor]. unfold data_dg; cbn. repeat constructor.
+Qed.
+
+Lemma unsent_rel_fr fuel cf now chs : forall p acc, rp_fr (fst (unsent_rel fuel cf now chs p acc)) = rp_fr p.
+Proof.
+  induction fuel as [|f IH]; intros p acc; cbn; [reflexivity|].
+  destruct (next_unsent p chs) as [n|]; [|reflexivity].
+  destruct (rp_hs p + 1 <? n); [unfold gen_hb; rewrite IH; reflexivity|].
+  destruct (lookup_relevant p n chs) as [c|]; [|rewrite IH; reflexivity].
+  unfold gen_hb. destruct (1 <? nfrags cf c); rewrite IH; reflexivity.
+Qed.
+
+Lemma write_rel_data cf now chs p : (forall c, In c chs -> rp_fr p < c_sn c -> P c) ->
+  Forall data_dg (snd (write_rel cf now chs p)).
+Proof.
+  intros Hi. unfold write_rel.
+  match goal with |- context [let '(p1, out1) := ?X in _] => destruct X as [p1 out1] eqn:E1 end.
+  assert (Hp1 : rp_fr p1 = rp_fr p /\ Forall data_dg out1).
+  { destruct (next_unsent p chs).
+    - replace p1 with (fst (unsent_rel (S (length chs)) cf now chs p [])) by (rewrite E1; reflexivity).
+      replace out1 with (snd (unsent_rel (S (length chs)) cf now chs p [])) by (rewrite E1; reflexivity).
+      split; [apply unsent_rel_fr|]. apply unsent_rel_data with (fr := rp_fr p); [assumption|reflexivity|constructor].
+    - destruct (negb (unacked p (zmax_list (sns chs)))); [inversion E1; subst; split; [reflexivity|constructor]|].
+      destruct (time_for_hb p now); unfold gen_hb in E1; inversion E1; subst; (split; [reflexivity|]); [|constructor].
+      constructor; [|constructor]. unfold data_dg; cbn. repeat constructor. }
+  destruct Hp1 as [Hfr Ho]. apply req_loop_data with (fr := rp_fr p); assumption.
+Qed.
+
+Lemma write_be_data fuel cf chs : (forall c, In c chs -> P c) ->
+  forall p acc, Forall data_dg acc -> Forall data_dg (snd (write_be_loop fuel cf chs p acc)).
+Proof.
+  intros Hi. induction fuel as [|f IH]; intros p acc Ha; cbn; [assumption|].
+  destruct (next_unsent p chs) as [n|]; [|assumption].
+  destruct (rp_hs p + 1 <? n).
+  - apply IH. apply Forall_app; split; [assumption|].
+    constructor; [|constructor]. unfold data_dg; cbn. repeat constructor.
+  - destruct (find_change n chs) as [c|] eqn:El.
+    + apply find_change_in in El. destruct El as [El _]. apply Hi in El.
+      destruct (1 <? nfrags cf c); apply IH; apply Forall_app; split; try assumption.
+      * apply data_frag_dgrams; [assumption| constructor].
+      * constructor; [|constructor]. unfold data_dg; cbn. repeat constructor. exact El.
+    + apply IH. apply Forall_app; split; [assumption|].
+      constructor; [|constructor]. unfold data_dg; cbn. repeat constructor.
+Qed.
+
+Lemma on_acknack_data cf now chs p base set count : (forall c, In c chs -> rp_fr p < c_sn c -> P c) ->
+  Forall data_dg (snd (fst (on_acknack cf now chs p base set count))).
+Proof.
+  intros Hi. unfold on_acknack. destruct (rp_rel p && (rp_an p <? count)); [|constructor].
+  match goal with |- context [write_rel cf now chs ?q] =>
+    pose proof (write_rel_data cf now chs q Hi) as H; destruct (write_rel cf now chs q) as [p2 out] end.
+  exact H.
+Qed.
+
+Lemma on_nackfrag_data cf chs p sn base set count : (forall c, In c chs -> Q (c_sn c) -> P c) -> Q sn ->
+  Forall data_dg (snd (on_nackfrag cf chs p sn base set count)).
+Proof.
+  intros Hi Hq. unfold on_nackfrag. destruct (rp_rel p && (rp_nf p <? count)); [|constructor].
+  destruct (find_change sn chs) as [c|] eqn:El; cbn [snd].
+  - apply find_change_in in El. destruct El as [El Hsn]. assert (Pc : P c) by (apply Hi; [assumption|rewrite Hsn; assumption]).
+    apply Forall_forall. intros d Hd. apply in_flat_map in Hd. destruct Hd as [f [_ Hd]].
+    destruct (f <? nfrags cf c); [|contradiction]. destruct Hd as [<-|[]].
+    unfold data_dg; cbn. repeat constructor. exact Pc.
+  - constructor; [|constructor]. unfold data_dg; cbn. repeat constructor.
+Qed.
+
+(* --- reader side *)
+Definition opt_list {A} (o : option A) : list A := match o with Some x => [x] | None => [] end.
+
+Lemma sns_app a b : sns (a ++ b) = sns a ++ sns b.
+Proof. unfold sns. apply map_app. Qed.
+
+Lemma WOk_accept w pres c w1 :
+  P c -> WOk w pres -> wp_hr w < c_sn c ->
+  wp_hr w1 = c_sn c -> (forall f, In f (wp_frags w1) -> In f (wp_frags w)) ->
+  WOk w1 (pres ++ [c]).
+Proof.
+  intros Hc (Hin & Hs & Hb & Hf) Hlt Hhr Hfr. repeat split.
+  - apply Forall_app; split; [assumption|constructor; [assumption|constructor]].
+  - rewrite sns_app. cbn. apply sorted_app_one; [assumption|].
+    unfold sns. apply Forall_forall. intros y Hy. apply in_map_iff in Hy. destruct Hy as [d [<- Hd]].
+    rewrite Forall_forall in Hb. specialize (Hb d Hd). lia.
+  - apply Forall_app; split; [|constructor; [lia|constructor]].
+    eapply Forall_impl; [|exact Hb]. cbn. intros; lia.
+  - rewrite Forall_forall in *. intros f Hf'. apply Hf. apply Hfr. assumption.
+Qed.
+
+Lemma WOk_keep w pres w1 :
+  WOk w pres -> wp_hr w <= wp_hr w1 -> (forall f, In f (wp_frags w1) -> In f (wp_frags w)) ->
+  WOk w1 pres.
+Proof.
+  intros (Hin & Hs & Hb & Hf) Hhr Hfr. repeat split; try assumption.
+  - eapply Forall_impl; [|exact Hb]. cbn. intros; lia.
+  - rewrite Forall_forall in *. intros f Hf'. apply Hf. apply Hfr. assumption.
+Qed.
+
+Lemma avail_max_ge_hr w : wp_hr w <= avail_max w.
+Proof. unfold avail_max. lia. Qed.
+
+Lemma on_data_WOk rel w c pres w1 oc :
+  P c -> WOk w pres -> on_data rel w c = (w1, oc) -> WOk w1 (pres ++ opt_list oc).
+Proof.
+  intros Hc Hw E. pose proof (avail_max_ge_hr w) as Hav. unfold on_data in E. destruct rel.
+  - destruct (Z.eqb_spec (c_sn c) (avail_max w + 1)) as [Heq|]; inversion E; subst; cbn [opt_list].
+    + apply WOk_accept with (w := w); try assumption; [lia| |].
+      * unfold received_set; cbn. destruct (Z.ltb_spec (wp_hr w) (c_sn c)); lia.
+      * unfold received_set; cbn. intros f Hf. apply filter_In in Hf. tauto.
+    + rewrite app_nil_r. assumption.
+  - destruct (Z.leb_spec (avail_max w + 1) (c_sn c)) as [Hle|]; inversion E; subst; cbn [opt_list].
+    + apply WOk_accept with (w := w); try assumption; [lia| |].
+      * destruct (avail_max w + 1 <? c_sn c); unfold set_fa, received_set; cbn;
+          destruct (Z.ltb_spec (wp_hr w) (c_sn c)); lia.
+      * destruct (avail_max w + 1 <? c_sn c); unfold set_fa, received_set; cbn;
+          intros f Hf; apply filter_In in Hf; tauto.
+    + rewrite app_nil_r. assumption.
+Qed.
+
+Lemma push_frag_frags w f g : In g (wp_frags (push_frag w f)) -> g = f \/ In g (wp_frags w).
+Proof.
+  unfold push_frag. destruct (existsb (frag_eqb f) (wp_frags w)); [tauto|].
+  unfold set_frags; cbn. intros H. apply in_app_or in H. destruct H as [H|[H|[]]]; auto.
+Qed.
+Lemma push_frag_hr w f : wp_hr (push_frag w f) = wp_hr w.
+Proof. unfold push_frag. destruct (existsb _ _); reflexivity. Qed.
+Lemma push_frag_avail w f : avail_max (push_frag w f) = avail_max w.
+Proof. unfold push_frag. destruct (existsb _ _); reflexivity. Qed.
+
+Lemma reconstruct_spec cf w sn d w2 :
+  reconstruct cf w sn = Some (d, w2) ->
+  In d (map fst (wp_frags w)) /\ c_sn d = sn /\ wp_hr w2 = wp_hr w /\ avail_max w2 = avail_max w /\
+  (forall f, In f (wp_frags w2) -> In f (wp_frags w)).
+Proof.
+  unfold reconstruct. destruct (find _ (wp_frags w)) as [f0|]; [|discriminate].
+  destruct (_ =? _); [|discriminate].
+  destruct (find (fun f => (frag_sn f =? sn) && (snd f =? 1)) (wp_frags w)) as [f1|] eqn:E1; [|discriminate].
+  intros H; inversion H; subst. apply find_some in E1. destruct E1 as [E1 E2].
+  apply andb_prop in E2. destruct E2 as [E2 _]. apply Z.eqb_eq in E2.
+  repeat split.
+  - apply in_map. assumption.
+  - exact E2.
+  - unfold set_frags; cbn. intros f Hf. apply filter_In in Hf. tauto.
+Qed.
+
+Lemma on_frag_WOk cf rel w c k pres w1 oc :
+  P c -> WOk w pres -> on_frag cf rel w c k = (w1, oc) -> WOk w1 (pres ++ opt_list oc).
+Proof.
+  intros Hc Hw E. unfold on_frag in E.
+  set (wa := if (if rel then c_sn c =? avail_max w + 1 else avail_max w + 1 <=? c_sn c)
+             then push_frag w (c, k) else w) in *.
+  assert (Hwa : WOk wa pres).
+  { subst wa. destruct (if rel then _ else _); [|assumption].
+    destruct Hw as (Hin & Hs & Hb & Hf). repeat split; try assumption.
+    - rewrite push_frag_hr. assumption.
+    - apply Forall_forall. intros g Hg. apply push_frag_frags in Hg. destruct Hg as [->|Hg]; [exact Hc|].
+      rewrite Forall_forall in Hf. auto. }
+  destruct (reconstruct cf wa (c_sn c)) as [[d w2]|] eqn:Er.
+  - apply reconstruct_spec in Er. destruct Er as (Hd & _ & Hhr & _ & Hfr).
+    eapply on_data_WOk; [| |exact E].
+    + destruct Hwa as (_ & _ & _ & Hf). apply in_map_iff in Hd. destruct Hd as [g [<- Hg]].
+      rewrite Forall_forall in Hf. auto.
+    + eapply WOk_keep; [exact Hwa|lia|exact Hfr].
+  - inversion E; subst. cbn [opt_list]. rewrite app_nil_r. assumption.
+Qed.
+
+Lemma on_gap_WOk w a b pres : WOk w pres -> WOk (on_gap w a b) pres.
+Proof.
+  intros Hw. unfold on_gap. destruct ((a <? b) && (wp_hr w <? b - 1)) eqn:E; [|assumption].
+  apply andb_prop in E. destruct E as [_ E]. apply Z.ltb_lt in E.
+  eapply WOk_keep; [exact Hw| cbn; lia | cbn; auto].
+Qed.
+
+Lemma acknack_of_spec cf w : Forall (fun f => P (fst f)) (wp_frags w) ->
+  wp_hr (fst (acknack_of cf w)) = wp_hr w /\
+  wp_frags (fst (acknack_of cf w)) = wp_frags w /\
+  Forall data_sub (snd (acknack_of cf w)).
+Proof.
+  intros Hf. unfold acknack_of. cbn [wp_frags wp_hr wp_fa wp_la wp_an wp_nf].
+  match goal with |- context [find ?g (firstn 256 ?m)] => destruct (find g (firstn 256 m)) as [s|] eqn:Es end.
+  2:{ cbn. repeat split. repeat constructor. }
+  destruct (find (fun f => frag_sn f =? s) (wp_frags w)) as [f0|] eqn:Ef0.
+  2:{ cbn. repeat split. repeat constructor. }
+  match goal with |- context [match ?l with [] => _ | _ :: _ => _ end] => destruct l as [|b t] end.
+  - cbn. repeat split. repeat constructor.
+  - cbn. repeat split. constructor; [exact I|]. constructor; [|constructor]. cbn.
+    apply find_some in Ef0. destruct Ef0 as [Hin Heq]. apply Z.eqb_eq in Heq. unfold frag_sn in Heq. rewrite <- Heq.
+    apply PQ. rewrite Forall_forall in Hf. apply Hf. assumption.
+Qed.
+
+Lemma on_hb_WOk cf w f l c pres w1 out :
+  WOk w pres -> on_hb cf w f l c = (w1, out) -> WOk w1 pres /\ Forall data_dg out.
+Proof.
+  intros Hw E. unfold on_hb in E. destruct (wp_hb w <? c).
+  - match type of E with context [acknack_of cf ?q] =>
+      assert (Hq : Forall (fun f => P (fst f)) (wp_frags q)) by (cbn; apply Hw);
+      pose proof (acknack_of_spec cf q Hq) as (Hhr & Hfr & Ha); destruct (acknack_of cf q) as [w2 subs] end.
+    inversion E; subst. cbn in Hhr, Hfr, Ha. split.
+    + eapply WOk_keep; [exact Hw| rewrite Hhr; lia | rewrite Hfr; auto].
+    + constructor; [|constructor]. unfold data_dg; cbn. exact Ha.
+  - inversion E; subst. split; [assumption|constructor].
+Qed.
+
+Lemma rd_present_proj r w oc :
+  rd_wp (rd_present r w oc) = Some w /\ rd_pres (rd_present r w oc) = rd_pres r ++ opt_list oc.
+Proof. destruct oc; cbn; split; try reflexivity. rewrite app_nil_r. reflexivity. Qed.
+
+Lemma deliver_sub_R_RInv cf r m r1 out :
+  data_sub m -> RInv r -> deliver_sub_R cf r m = (r1, out) ->
+  RInv r1 /\ Forall data_dg out.
+Proof.
+  intros Ha Hr E. unfold deliver_sub_R in E. unfold RInv in Hr.
+  destruct (rd_wp r) as [w|] eqn:Ew.
+  2:{ inversion E; subst. split; [unfold RInv; rewrite Ew; assumption|constructor]. }
+  destruct m as [c|c k|a b|f l c| |]; cbn in Ha.
+  - destruct (on_data (rd_rel r) w c) as [w1 oc] eqn:Ed. inversion E; subst. split; [|constructor].
+    unfold RInv. destruct (rd_present_proj r w1 oc) as [-> ->]. eapply on_data_WOk; eassumption.
+  - destruct (on_frag cf (rd_rel r) w c k) as [w1 oc] eqn:Ed. inversion E; subst. split; [|constructor].
+    unfold RInv. destruct (rd_present_proj r w1 oc) as [-> ->]. eapply on_frag_WOk; eassumption.
+  - inversion E; subst. split; [|constructor].
+    unfold RInv, rd_present; cbn. apply on_gap_WOk. assumption.
+  - destruct (on_hb cf w f l c) as [w1 o] eqn:Eh.
+    destruct (on_hb_WOk cf w f l c (rd_pres r) w1 o Hr Eh) as [Hw Ho].
+    destruct (hist_received (rd_wp (rd_present r w1 None))); inversion E; subst; (split; [|assumption]);
+      unfold RInv, rd_present; cbn; assumption.
+  - inversion E; subst. split; [unfold RInv; rewrite Ew; assumption|constructor].
+  - inversion E; subst. split; [unfold RInv; rewrite Ew; assumption|constructor].
+Qed.
+
+Lemma deliver_subs_R_RInv cf l : forall r acc r1 out,
+  Forall data_sub l -> RInv r -> Forall data_dg acc ->
+  deliver_subs_R cf r l acc = (r1, out) -> RInv r1 /\ Forall data_dg out.
+Proof.
+  induction l as [|m t IH]; intros r acc r1 out Hl Hr Ha E; cbn in E.
+  - inversion E; subst. split; assumption.
+  - inversion Hl; subst. destruct (deliver_sub_R cf r m) as [r' o] eqn:Em.
+    destruct (deliver_sub_R_RInv cf r m r' o H1 Hr Em) as [Hr' Ho].
+    eapply IH; [exact H2|exact Hr'| |exact E]. apply Forall_app; split; assumption.
+Qed.
+
+End DataInv.
+
+(* ------------------------------------------------------------------ safety invariant *)
+(* authentic = cut from a change of the publication log *)
+Definition auth_sub (log : list change) : submsg -> Prop := data_sub (fun c => In c log) (fun _ => True).
+Definition auth_dg (log : list change) : dgram -> Prop := data_dg (fun c => In c log) (fun _ => True).
+Definition ARInv (log : list change) : reader -> Prop := RInv (fun c => In c log).
 
 Record SInv (s : state) : Prop := mkSInv {
   si_sorted : StronglySorted Z.lt (sns (s_log s));
   si_le : Forall (fun c => c_sn c <= s_last s) (s_log s);
   si_chs : incl (s_changes s) (s_log s);
   si_net : Forall (auth_dg (s_log s)) (s_net s);
-  si_rd : match s_rd s with None => True | Some r => RInv (s_log s) r end
+  si_rd : match s_rd s with None => True | Some r => ARInv (s_log s) r end
 }.
 
-Lemma auth_sub_mono l1 l2 m : incl l1 l2 -> auth_sub l1 m -> auth_sub l2 m.
-Proof. intros Hi; destruct m; cbn; auto. Qed.
 Lemma auth_dg_mono l1 l2 d : incl l1 l2 -> auth_dg l1 d -> auth_dg l2 d.
-Proof. intros Hi H. unfold auth_dg in *. eapply Forall_impl; [|exact H]. intros m. apply auth_sub_mono; assumption. Qed.
-
-(* --- everything the writer emits is cut from changes it holds *)
-Lemma auth_frag_dgrams log c k extra :
-  In c log -> Forall (auth_sub log) extra -> Forall (auth_dg log) (frag_dgrams c k extra).
 Proof.
-  intros Hc He. unfold frag_dgrams. apply Forall_app; split.
-  - apply Forall_forall. intros d Hd. apply in_map_iff in Hd. destruct Hd as [i [<- _]].
-    unfold auth_dg; cbn. constructor; [exact Hc|constructor].
-  - constructor; [|constructor]. unfold auth_dg; cbn. constructor; assumption.
-Qed.
-
-Lemma lookup_relevant_in p n chs c : lookup_relevant p n chs = Some c -> In c chs.
-Proof. unfold lookup_relevant. intros H. apply find_some in H. tauto. Qed.
-Lemma find_change_in n chs c : find_change n chs = Some c -> In c chs.
-Proof. unfold find_change. intros H. apply find_some in H. tauto. Qed.
-
-Lemma unsent_rel_auth log fuel cf now chs : incl chs log ->
-  forall p acc, Forall (auth_dg log) acc -> Forall (auth_dg log) (snd (unsent_rel fuel cf now chs p acc)).
-Proof.
-  intros Hi. induction fuel as [|f IH]; intros p acc Ha; cbn; [assumption|].
-  destruct (next_unsent p chs) as [n|]; [|assumption].
-  destruct (rp_hs p + 1 <? n).
-  - unfold gen_hb. apply IH. apply Forall_app; split; [assumption|].
-    constructor; [|constructor]. unfold auth_dg; cbn. repeat constructor.
-  - destruct (lookup_relevant p n chs) as [c|] eqn:El.
-    + apply lookup_relevant_in in El. apply Hi in El. unfold gen_hb.
-      destruct (1 <? nfrags cf c); apply IH; apply Forall_app; split; try assumption.
-      * apply auth_frag_dgrams; [assumption| repeat constructor].
-      * constructor; [|constructor]. unfold auth_dg; cbn. repeat constructor. exact El.
-    + apply IH. apply Forall_app; split; [assumption|].
-      constructor; [|constructor]. unfold auth_dg; cbn. repeat constructor.
-Qed.
-
-Lemma req_loop_auth log fuel cf now chs : incl chs log ->
-  forall p acc, Forall (auth_dg log) acc -> Forall (auth_dg log) (snd (req_loop fuel cf now chs p acc)).
-Proof.
-  intros Hi. induction fuel as [|f IH]; intros p acc Ha; cbn; [assumption|].
-  destruct (zmin_list (rp_req p)) as [n|]; [|assumption].
-  match goal with |- context [lookup_relevant ?q n chs] => destruct (lookup_relevant q n chs) as [c|] eqn:El end.
-  - apply lookup_relevant_in in El. apply Hi in El. unfold gen_hb.
-    destruct (1 <? nfrags cf c); apply IH; apply Forall_app; split; try assumption;
-      (constructor; [|constructor]); unfold auth_dg; cbn; repeat constructor; exact El.
-  - apply IH. apply Forall_app; split; [assumption|].
-    constructor; [|constructor]. unfold auth_dg; cbn. repeat constructor.
-Qed.
-
-Lemma write_rel_auth log cf now chs p : incl chs log ->
-  Forall (auth_dg log) (snd (write_rel cf now chs p)).
-Proof.
-  intros Hi. unfold write_rel.
-  match goal with |- context [let '(p1, out1) := ?X in _] => destruct X as [p1 out1] eqn:E1 end.
-  apply req_loop_auth; [assumption|].
-  destruct (next_unsent p chs).
-  - replace out1 with (snd (unsent_rel (S (length chs)) cf now chs p [])) by (rewrite E1; reflexivity).
-    apply unsent_rel_auth; [assumption|constructor].
-  - destruct (negb (unacked p (zmax_list (sns chs)))); [inversion E1; subst; constructor|].
-    destruct (time_for_hb p now); unfold gen_hb in E1; inversion E1; subst; [|constructor].
-    constructor; [|constructor]. unfold auth_dg; cbn. repeat constructor.
-Qed.
-
-Lemma write_be_auth log fuel cf chs : incl chs log ->
-  forall p acc, Forall (auth_dg log) acc -> Forall (auth_dg log) (snd (write_be_loop fuel cf chs p acc)).
-Proof.
-  intros Hi. induction fuel as [|f IH]; intros p acc Ha; cbn; [assumption|].
-  destruct (next_unsent p chs) as [n|]; [|assumption].
-  destruct (rp_hs p + 1 <? n).
-  - apply IH. apply Forall_app; split; [assumption|].
-    constructor; [|constructor]. unfold auth_dg; cbn. repeat constructor.
-  - destruct (find_change n chs) as [c|] eqn:El.
-    + apply find_change_in in El. apply Hi in El.
-      destruct (1 <? nfrags cf c); apply IH; apply Forall_app; split; try assumption.
-      * apply auth_frag_dgrams; [assumption| constructor].
-      * constructor; [|constructor]. unfold auth_dg; cbn. repeat constructor. exact El.
-    + apply IH. apply Forall_app; split; [assumption|].
-      constructor; [|constructor]. unfold auth_dg; cbn. repeat constructor.
+  intros Hi H. unfold auth_dg, data_dg in *. eapply Forall_impl; [|exact H].
+  intros m. destruct m; cbn; auto.
 Qed.
 
 Lemma write_message_auth log cf now chs p : incl chs log ->
   Forall (auth_dg log) (snd (write_message cf now chs p)).
 Proof.
   intros Hi. unfold write_message. destruct (rp_rel p).
-  - apply write_rel_auth; assumption.
-  - apply write_be_auth; [assumption|constructor].
+  - apply write_rel_data. intros c Hc _. apply Hi. assumption.
+  - apply write_be_data; [|constructor]. intros c Hc. apply Hi. assumption.
 Qed.
-
 Lemma on_acknack_auth log cf now chs p base set count : incl chs log ->
   Forall (auth_dg log) (snd (fst (on_acknack cf now chs p base set count))).
-Proof.
-  intros Hi. unfold on_acknack. destruct (rp_rel p && (rp_an p <? count)); [|constructor].
-  match goal with |- context [write_rel cf now chs ?q] =>
-    pose proof (write_rel_auth log cf now chs q Hi) as H; destruct (write_rel cf now chs q) as [p2 out] end.
-  exact H.
-Qed.
-
+Proof. intros Hi. apply on_acknack_data. intros c Hc _. apply Hi. assumption. Qed.
 Lemma on_nackfrag_auth log cf chs p sn base set count : incl chs log ->
   Forall (auth_dg log) (snd (on_nackfrag cf chs p sn base set count)).
+Proof. intros Hi. apply on_nackfrag_data; [|exact I]. intros c Hc _. apply Hi. assumption. Qed.
+
+(* --- state level *)
+Lemma SInv_send s out : SInv s -> Forall (auth_dg (s_log s)) out -> SInv (send s out).
 Proof.
-  intros Hi. unfold on_nackfrag. destruct (rp_rel p && (rp_nf p <? count)); [|constructor].
-  destruct (find_change sn chs) as [c|] eqn:El; cbn.
-  - apply find_change_in in El. apply Hi in El.
-    apply Forall_forall. intros d Hd. apply in_flat_map in Hd. destruct Hd as [f [_ Hd]].
-    destruct (f <? nfrags cf c); [|contradiction]. destruct Hd as [<-|[]].
-    unfold auth_dg; cbn. repeat constructor. exact El.
-  - constructor; [|constructor]. unfold auth_dg; cbn. repeat constructor.
+  intros [H1 H2 H3 H4 H5] Ho. constructor; cbn; try assumption.
+  apply Forall_app; split; [assumption|]. apply Forall_filter. assumption.
 Qed.
+
+Lemma SInv_set_rp s p : SInv s -> SInv (set_rp s p).
+Proof. intros [H1 H2 H3 H4 H5]. constructor; cbn; assumption. Qed.
+Lemma SInv_set_waits s w : SInv s -> SInv (set_waits s w).
+Proof. intros [H1 H2 H3 H4 H5]. constructor; cbn; assumption. Qed.
+Lemma SInv_set_net s n : SInv s -> Forall (auth_dg (s_log s)) n -> SInv (set_net s n).
+Proof. intros [H1 H2 H3 H4 H5] Hn. constructor; cbn; assumption. Qed.
+Lemma SInv_set_rd s r : SInv s -> ARInv (s_log s) r -> SInv (set_rd s (Some r)).
+Proof. intros [H1 H2 H3 H4 H5] Hr. constructor; cbn; assumption. Qed.
+
+Lemma poke_SInv cf s : SInv s -> SInv (poke cf s).
+Proof.
+  intros H. unfold poke. destruct (s_rp s) as [p|]; [|assumption].
+  pose proof (write_message_auth (s_log s) cf (s_now s) (s_changes s) p (si_chs s H)) as Ha.
+  destruct (write_message cf (s_now s) (s_changes s) p) as [p1 out]. cbn in Ha.
+  apply SInv_send; [apply SInv_set_rp; assumption|assumption].
+Qed.
+
+Lemma deliver_sub_W_SInv cf s m : SInv s -> SInv (deliver_sub_W cf s m).
+Proof.
+  intros H. unfold deliver_sub_W. destruct (s_rp s) as [p|]; [|assumption].
+  destruct m; try assumption.
+  - pose proof (on_acknack_auth (s_log s) cf (s_now s) (s_changes s) p base set count (si_chs s H)) as Ha.
+    destruct (on_acknack cf (s_now s) (s_changes s) p base set count) as [[p1 out] some]. cbn in Ha.
+    assert (SInv (send (set_rp s (Some p1)) out)) by (apply SInv_send; [apply SInv_set_rp; assumption|assumption]).
+    destruct (some && is_acked (Some p1) (s_last s)); [apply SInv_set_waits|]; assumption.
+  - pose proof (on_nackfrag_auth (s_log s) cf (s_changes s) p sn base set count (si_chs s H)) as Ha.
+    destruct (on_nackfrag cf (s_changes s) p sn base set count) as [p1 out]. cbn in Ha.
+    apply SInv_send; [apply SInv_set_rp; assumption|assumption].
+Qed.
+
+Lemma fold_deliver_sub_W_SInv cf l : forall s, SInv s -> SInv (fold_left (deliver_sub_W cf) l s).
+Proof. induction l; intros s H; cbn; [assumption|]. apply IHl. apply deliver_sub_W_SInv. assumption. Qed.
+
+Lemma deliver_dgram_SInv cf s d : SInv s -> auth_dg (s_log s) d -> SInv (deliver_dgram cf s d).
+Proof.
+  intros H Hd. unfold deliver_dgram. destruct (dg_toR d).
+  - destruct (s_rdead s); [assumption|]. destruct (s_rd s) as [r|] eqn:Er; [|assumption].
+    destruct (deliver_subs_R cf r (dg_subs d) []) as [r1 out] eqn:E.
+    pose proof (si_rd s H) as Hr. rewrite Er in Hr.
+    destruct (deliver_subs_R_RInv (fun c => In c (s_log s)) (fun _ => True) (fun _ _ => I) cf (dg_subs d) r [] r1 out Hd Hr (Forall_nil _) E) as [Hr1 Ho].
+    apply SInv_send; [apply SInv_set_rd; assumption|assumption].
+  - apply fold_deliver_sub_W_SInv. assumption.
+Qed.
+
+Lemma SInv_take_net s i d :
+  SInv s -> nth_error (s_net s) i = Some d ->
+  SInv (set_net s (remove_nth i (s_net s))) /\ auth_dg (s_log s) d.
+Proof.
+  intros H E. split.
+  - apply SInv_set_net; [assumption|]. apply Forall_remove_nth. apply (si_net s H).
+  - eapply Forall_nth_error; [apply (si_net s H)|exact E].
+Qed.
+
+Lemma pump_SInv cf fuel : forall s n, SInv s -> SInv (fst (pump fuel cf s n)).
+Proof.
+  induction fuel as [|f IH]; intros s n H; cbn; [assumption|].
+  destruct (s_net s) as [|d t] eqn:En; [assumption|].
+  apply IH. apply poke_SInv.
+  assert (Hd : auth_dg (s_log s) d /\ Forall (auth_dg (s_log s)) t).
+  { pose proof (si_net s H) as Hn. rewrite En in Hn. inversion Hn; subst. split; assumption. }
+  apply deliver_dgram_SInv; [apply SInv_set_net; tauto|cbn; tauto].
+Qed.
+
+Lemma init_SInv : SInv init.
+Proof. constructor; cbn; try constructor. intros x []. Qed.
+
+Lemma do_write_SInv cf s key len sum : SInv s -> SInv (fst (do_write cf s key len sum)).
+Proof.
+  intros H. unfold do_write.
+  match goal with |- context [if ?b then (s, 10) else _] => destruct b end; [assumption|].
+  match goal with |- context [let '(chs1, inst1) := ?X in _] => destruct X as [chs1 inst1] eqn:E end.
+  assert (Hc : incl chs1 (s_log s)).
+  { pose proof (si_chs s H) as Hi.
+    match type of E with (match ?o with _ => _ end) = _ => destruct o end; inversion E; subst; [|assumption].
+    intros x Hx. apply filter_In in Hx. apply Hi. tauto. }
+  destruct H as [H1 H2 H3 H4 H5]. cbn [fst]. constructor; cbn.
+  - rewrite sns_app. cbn. apply sorted_app_one; [assumption|].
+    unfold sns. apply Forall_forall. intros y Hy. apply in_map_iff in Hy. destruct Hy as [d [<- Hd]].
+    rewrite Forall_forall in H2. specialize (H2 d Hd). lia.
+  - apply Forall_app; split; [|constructor; [cbn; lia|constructor]].
+    eapply Forall_impl; [|exact H2]. cbn. intros; lia.
+  - intros x Hx. apply in_app_or in Hx. apply in_or_app. destruct Hx as [Hx|Hx]; [left; auto|right; assumption].
+  - eapply Forall_impl; [|exact H4]. intros d. apply auth_dg_mono. apply incl_appl. apply incl_refl.
+  - destruct (s_rd s) as [r|]; [|exact I]. unfold ARInv, RInv in *. destruct (rd_wp r); [|assumption].
+    destruct H5 as (A & B & C & D). repeat split; try assumption.
+    + eapply Forall_impl; [|exact A]. cbn. intros; apply in_or_app; auto.
+    + eapply Forall_impl; [|exact D]. cbn. intros; apply in_or_app; auto.
+Qed.
+
+Lemma act_SInv cf s a : SInv s -> SInv (fst (act cf s a)).
+Proof.
+  intros H. destruct a; cbn [act].
+  - pose proof (do_write_SInv cf s key len sum H) as Hw.
+    destruct (do_write cf s key len sum) as [s1 code]. exact Hw.
+  - destruct H as [H1 H2 H3 H4 H5]. constructor; cbn; try assumption.
+    intros x Hx. apply filter_In in Hx. apply H3. tauto.
+  - destruct H as [H1 H2 H3 H4 H5]. constructor; cbn; assumption.
+  - destruct (nth_error (s_net s) i) as [d|] eqn:E; [|assumption]. cbn [fst].
+    destruct (SInv_take_net s i d H E) as [Hs Hd]. apply deliver_dgram_SInv; assumption.
+  - destruct (nth_error (s_net s) i) as [d|] eqn:E; [|assumption]. cbn [fst].
+    destruct (SInv_take_net s i d H E) as [Hs Hd]. assumption.
+  - destruct (nth_error (s_net s) i) as [d|] eqn:E; [|assumption]. cbn [fst].
+    destruct (SInv_take_net s i d H E) as [Hs Hd].
+    assert (Hlog : forall s', s_log (poke cf s') = s_log s').
+    { intros s'. unfold poke. destruct (s_rp s'); [|reflexivity]. destruct (write_message _ _ _ _). reflexivity. }
+    assert (Hlog2 : forall s' d', s_log (deliver_dgram cf s' d') = s_log s').
+    { intros s' d'. unfold deliver_dgram. destruct (dg_toR d').
+      - destruct (s_rdead s'); [reflexivity|]. destruct (s_rd s'); [|reflexivity].
+        destruct (deliver_subs_R _ _ _ _). reflexivity.
+      - generalize s'. induction (dg_subs d') as [|m t IH]; intros s0; cbn; [reflexivity|].
+        rewrite IH. unfold deliver_sub_W. destruct (s_rp s0); [|reflexivity].
+        destruct m; try reflexivity.
+        + destruct (on_acknack _ _ _ _ _ _ _) as [[p1 o] sm]. destruct (sm && _); reflexivity.
+        + destruct (on_nackfrag _ _ _ _ _ _ _). reflexivity. }
+    apply deliver_dgram_SInv.
+    + apply poke_SInv. apply deliver_dgram_SInv; assumption.
+    + rewrite Hlog, Hlog2. cbn. assumption.
+  - pose proof (pump_SInv cf pump_fuel s 0 H) as Hp.
+    destruct (pump pump_fuel cf s 0) as [s1 n]. exact Hp.
+  - destruct (s_rd s) as [r|] eqn:Er; [|assumption]. cbn [fst].
+    pose proof (si_rd s H) as Hr. rewrite Er in Hr.
+    destruct H as [H1 H2 H3 H4 H5]. constructor; cbn; try assumption.
+  - destruct (s_rd s) as [r|] eqn:Er; [assumption|].
+    destruct (s_rdead s || _); [assumption|].
+    destruct (rxo_ok cf rel tl); cbn [fst].
+    + apply poke_SInv. destruct H as [H1 H2 H3 H4 H5]. constructor; cbn; try assumption.
+      unfold ARInv, RInv, WOk; cbn. repeat split; constructor.
+    + destruct H as [H1 H2 H3 H4 H5]. constructor; cbn; try assumption. reflexivity.
+  - destruct H as [H1 H2 H3 H4 H5]. constructor; cbn; try assumption. exact I.
+  - destruct H as [H1 H2 H3 H4 H5]. constructor; cbn; try assumption. exact I.
+  - destruct (is_acked (s_rp s) (s_last s)); cbn [fst]; apply SInv_set_waits; assumption.
+  - destruct (poll (s_waits s)). cbn [fst]. apply SInv_set_waits; assumption.
+  - destruct (s_rd s) as [r|] eqn:Er; [|assumption].
+    pose proof (si_rd s H) as Hr. rewrite Er in Hr.
+    destruct (negb (rd_tl r)); [assumption|].
+    destruct (hist_received (rd_wp r)); cbn [fst]; apply SInv_set_rd; assumption.
+  - destruct (s_rd s) as [r|] eqn:Er; [|assumption].
+    pose proof (si_rd s H) as Hr. rewrite Er in Hr.
+    destruct (poll (rd_hwaits r)). cbn [fst]. apply SInv_set_rd; assumption.
+  - assumption.
+  - assumption.
+Qed.
+
+Lemma step_SInv cf s a : SInv s -> SInv (fst (step cf s a)).
+Proof.
+  intros H. unfold step. pose proof (act_SInv cf s a H) as Ha.
+  destruct (act cf s a) as [s1 o]. cbn [fst] in *. apply poke_SInv. assumption.
+Qed.
+
+Lemma run_out_fst cf l : forall s, fst (run_out cf s l) = fold_left (fun st a => fst (step cf st a)) l s.
+Proof.
+  induction l as [|a t IH]; intros s; cbn; [reflexivity|].
+  destruct (step cf s a) as [s1 o] eqn:E. destruct (run_out cf s1 t) as [s2 os] eqn:E2. cbn.
+  rewrite <- IH. rewrite E2. reflexivity.
+Qed.
+
+Lemma run_SInv cf l : forall s, SInv s -> SInv (run cf s l).
+Proof.
+  unfold run. induction l as [|a t IH]; intros s H; cbn; [assumption|].
+  pose proof (step_SInv cf s a H) as Hs. destruct (step cf s a) as [s1 o]. cbn [fst] in Hs.
+  specialize (IH s1 Hs). destruct (run_out cf s1 t) as [s2 os]. exact IH.
+Qed.
+
+(* ------------------------------------------------------------------ safety theorems *)
+
+Lemma SInv_presented s : SInv s ->
+  Forall (fun c => In c (s_log s)) (presented s) /\ strictly_increasing (presented s).
+Proof.
+  intros H. unfold presented, strictly_increasing. pose proof (si_rd s H) as Hr.
+  destruct (s_rd s) as [r|]; [|split; constructor].
+  unfold ARInv, RInv in Hr. destruct (rd_wp r).
+  - destruct Hr as (A & B & _). split; assumption.
+  - rewrite Hr. split; constructor.
+Qed.
+
+Lemma sorted_NoDup l : StronglySorted Z.lt l -> NoDup l.
+Proof.
+  induction 1; constructor; [|assumption].
+  intros Hin. rewrite Forall_forall in H0. specialize (H0 a Hin). lia.
+Qed.
+
+(* for every configuration (RELIABLE or BEST_EFFORT, any durability/history) and EVERY schedule of
+   writes, removals, ticks, deliveries in any order, drops, duplications, matches and deletions: the
+   list the reader presented is a subsequence of the publication log (same records, so same payload),
+   in publication order, with strictly increasing sequence numbers (hence without duplicates) *)
+Theorem safety_all cf l :
+  let s := run cf init l in
+  sublist (presented s) (s_log s) /\ strictly_increasing (presented s) /\ NoDup (presented s).
+Proof.
+  intros s. pose proof (run_SInv cf l init init_SInv) as H. fold s in H.
+  destruct (SInv_presented s H) as [Hin Hs]. split; [|split].
+  - apply sorted_incl_sublist; [apply (si_sorted s H)|exact Hs|exact Hin].
+  - exact Hs.
+  - unfold strictly_increasing in Hs. apply sorted_NoDup in Hs.
+    unfold sns in Hs. eapply NoDup_map_inv. exact Hs.
+Qed.
+
+(* duplicates of a fragment are recognised and not buffered twice *)
+Lemma change_eqb_refl c : change_eqb c c = true.
+Proof. unfold change_eqb. rewrite !Z.eqb_refl. reflexivity. Qed.
+Lemma frag_eqb_refl f : frag_eqb f f = true.
+Proof. unfold frag_eqb. rewrite change_eqb_refl, Z.eqb_refl. reflexivity. Qed.
+
+Lemma push_frag_idem w f : push_frag (push_frag w f) f = push_frag w f.
+Proof.
+  unfold push_frag at 2 3. destruct (existsb (frag_eqb f) (wp_frags w)) eqn:E.
+  - unfold push_frag. rewrite E. reflexivity.
+  - unfold push_frag. cbn. rewrite existsb_app. cbn. rewrite frag_eqb_refl, orb_true_r. reflexivity.
+Qed.
+
+(* ------------------------------------------------------------------ frame facts *)
+(* reliability kind, durability kind and first relevant sample of a reader proxy never change *)
+Definition rp_static (p : rproxy) : bool * bool * Z := (rp_rel p, rp_tl p, rp_fr p).
+
+Lemma unsent_rel_static fuel cf now chs : forall p acc,
+  rp_static (fst (unsent_rel fuel cf now chs p acc)) = rp_static p.
+Proof.
+  induction fuel as [|f IH]; intros p acc; cbn; [reflexivity|].
+  destruct (next_unsent p chs) as [n|]; [|reflexivity].
+  destruct (rp_hs p + 1 <? n); [unfold gen_hb; rewrite IH; reflexivity|].
+  destruct (lookup_relevant p n chs) as [c|]; [|rewrite IH; reflexivity].
+  unfold gen_hb. destruct (1 <? nfrags cf c); rewrite IH; reflexivity.
+Qed.
+Lemma req_loop_static fuel cf now chs : forall p acc,
+  rp_static (fst (req_loop fuel cf now chs p acc)) = rp_static p.
+Proof.
+  induction fuel as [|f IH]; intros p acc; cbn; [reflexivity|].
+  destruct (zmin_list (rp_req p)) as [n|]; [|reflexivity].
+  match goal with |- context [lookup_relevant ?q n chs] => destruct (lookup_relevant q n chs) as [c|] end.
+  - unfold gen_hb. destruct (1 <? nfrags cf c); rewrite IH; reflexivity.
+  - rewrite IH. reflexivity.
+Qed.
+Lemma write_rel_static cf now chs p : rp_static (fst (write_rel cf now chs p)) = rp_static p.
+Proof.
+  unfold write_rel.
+  match goal with |- context [let '(p1, out1) := ?X in _] => destruct X as [p1 out1] eqn:E1 end.
+  rewrite req_loop_static.
+  destruct (next_unsent p chs).
+  - replace p1 with (fst (unsent_rel (S (length chs)) cf now chs p [])) by (rewrite E1; reflexivity).
+    apply unsent_rel_static.
+  - destruct (negb _); [inversion E1; reflexivity|].
+    destruct (time_for_hb p now); unfold gen_hb in E1; inversion E1; reflexivity.
+Qed.
+Lemma write_be_static fuel cf chs : forall p acc,
+  rp_static (fst (write_be_loop fuel cf chs p acc)) = rp_static p.
+Proof.
+  induction fuel as [|f IH]; intros p acc; cbn; [reflexivity|].
+  destruct (next_unsent p chs) as [n|]; [|reflexivity].
+  destruct (rp_hs p + 1 <? n); [rewrite IH; reflexivity|].
+  destruct (find_change n chs) as [c|]; [|rewrite IH; reflexivity].
+  destruct (1 <? nfrags cf c); rewrite IH; reflexivity.
+Qed.
+Lemma write_message_static cf now chs p : rp_static (fst (write_message cf now chs p)) = rp_static p.
+Proof. unfold write_message. destruct (rp_rel p); [apply write_rel_static|apply write_be_static]. Qed.
+Lemma on_acknack_static cf now chs p base set count :
+  rp_static (fst (fst (on_acknack cf now chs p base set count))) = rp_static p.
+Proof.
+  unfold on_acknack. destruct (rp_rel p && _); [|reflexivity].
+  match goal with |- context [write_rel cf now chs ?q] =>
+    pose proof (write_rel_static cf now chs q) as H; destruct (write_rel cf now chs q) as [p2 out] end.
+  exact H.
+Qed.
+Lemma on_nackfrag_static cf chs p sn base set count :
+  rp_static (fst (on_nackfrag cf chs p sn base set count)) = rp_static p.
+Proof.
+  unfold on_nackfrag. destruct (rp_rel p && _); [|reflexivity].
+  destruct (find_change sn chs); reflexivity.
+Qed.
+
+Lemma static_fr p q : rp_static p = rp_static q -> rp_fr p = rp_fr q /\ rp_rel p = rp_rel q /\ rp_tl p = rp_tl q.
+Proof. unfold rp_static. intros H. inversion H. auto. Qed.
+
+Lemma zmax_list_none l : zmax_list l = None -> l = [].
+Proof. destruct l as [|x t]; [reflexivity|]. cbn. destruct (zmax_list t); discriminate. Qed.
+Lemma zmin_list_none l : zmin_list l = None -> l = [].
+Proof. destruct l as [|x t]; [reflexivity|]. cbn. destruct (zmin_list t); discriminate. Qed.
+
+Lemma zmax_list_ge l m x : zmax_list l = Some m -> In x l -> x <= m.
+Proof.
+  revert m; induction l as [|y t IH]; intros m E Hin; [contradiction|].
+  cbn in E. destruct (zmax_list t) as [m'|] eqn:Et.
+  - inversion E; subst. destruct Hin as [->|Hin]; [lia|]. specialize (IH m' eq_refl Hin). lia.
+  - inversion E; subst. apply zmax_list_none in Et. subst t. destruct Hin as [->|[]]. lia.
+Qed.
+
+Lemma in_le_last_sn c chs : In c chs -> c_sn c <= last_sn chs.
+Proof.
+  intros H. unfold last_sn. destruct (zmax_list (sns chs)) as [m|] eqn:E.
+  - eapply zmax_list_ge; [exact E|]. unfold sns. apply in_map. exact H.
+  - apply zmax_list_none in E. unfold sns in E. destruct chs; [contradiction|discriminate].
+Qed.
+
+(* ------------------------------------------------------------------ before the match nothing is in flight *)
+Definition NInv (s : state) : Prop :=
+  s_rp s = None -> s_net s = [] /\ match s_rd s with Some r => rd_wp r = None | None => True end.
+
+Lemma poke_rp_none cf s : s_rp s = None -> poke cf s = s.
+Proof. intros H. unfold poke. rewrite H. reflexivity. Qed.
+
+Lemma poke_rp_some cf s p : s_rp s = Some p -> exists q, s_rp (poke cf s) = Some q /\ rp_static q = rp_static p.
+Proof.
+  intros H. unfold poke. rewrite H.
+  pose proof (write_message_static cf (s_now s) (s_changes s) p) as Hs.
+  destruct (write_message cf (s_now s) (s_changes s) p) as [p1 out]. exists p1. split; [reflexivity|exact Hs].
+Qed.
+
+Lemma deliver_dgram_rp cf s d : forall p, s_rp s = Some p ->
+  exists q, s_rp (deliver_dgram cf s d) = Some q /\ rp_static q = rp_static p.
+Proof.
+  intros p Hp. unfold deliver_dgram. destruct (dg_toR d).
+  - destruct (s_rdead s); [eauto|]. destruct (s_rd s); [|eauto].
+    destruct (deliver_subs_R _ _ _ _). cbn. eauto.
+  - revert s p Hp. induction (dg_subs d) as [|m t IH]; intros s p Hp; cbn; [eauto|].
+    assert (H : exists q, s_rp (deliver_sub_W cf s m) = Some q /\ rp_static q = rp_static p).
+    { unfold deliver_sub_W. rewrite Hp. destruct m; eauto.
+      - pose proof (on_acknack_static cf (s_now s) (s_changes s) p base set count) as Hs.
+        destruct (on_acknack _ _ _ _ _ _ _) as [[p1 o] sm]. cbn in Hs.
+        destruct (sm && _); cbn; eauto.
+      - pose proof (on_nackfrag_static cf (s_changes s) p sn base set count) as Hs.
+        destruct (on_nackfrag _ _ _ _ _ _ _) as [p1 o]. cbn in Hs. cbn. eauto. }
+    destruct H as [q [Hq Hqs]]. destruct (IH _ _ Hq) as [q' [Hq' Hqs']]. exists q'. split; [assumption|congruence].
+Qed.
+
+Lemma pump_rp cf fuel : forall s n p, s_rp s = Some p ->
+  exists q, s_rp (fst (pump fuel cf s n)) = Some q /\ rp_static q = rp_static p.
+Proof.
+  induction fuel as [|f IH]; intros s n p Hp; cbn; [eauto|].
+  destruct (s_net s) as [|d t]; [eauto|].
+  destruct (deliver_dgram_rp cf (set_net s t) d p Hp) as [q [Hq Hs]].
+  destruct (poke_rp_some cf _ q Hq) as [q2 [Hq2 Hs2]].
+  destruct (IH _ (n + 1) q2 Hq2) as [q3 [Hq3 Hs3]]. exists q3. split; [assumption|congruence].
+Qed.
+
+Lemma do_write_frame cf s key len sum :
+  let s1 := fst (do_write cf s key len sum) in
+  s_rp s1 = s_rp s /\ s_rd s1 = s_rd s /\ s_net s1 = s_net s /\ s_now s1 = s_now s /\
+  s_dcps s1 = s_dcps s /\ s_waits s1 = s_waits s /\ s_rdead s1 = s_rdead s.
+Proof.
+  unfold do_write.
+  match goal with |- context [if ?b then (s, 10) else _] => destruct b end; [cbn; tauto|].
+  match goal with |- context [let '(chs1, inst1) := ?X in _] => destruct X as [chs1 inst1] end. cbn. tauto.
+Qed.
+
+(* once a reader proxy exists it stays, with the same static fields *)
+Lemma step_rp cf s a p : s_rp s = Some p ->
+  exists q, s_rp (fst (step cf s a)) = Some q /\ rp_static q = rp_static p.
+Proof.
+  intros Hp. unfold step.
+  assert (H : exists q, s_rp (fst (act cf s a)) = Some q /\ rp_static q = rp_static p).
+  { destruct a; cbn [act]; eauto.
+    - pose proof (do_write_frame cf s key len sum) as (Hf & _).
+      destruct (do_write cf s key len sum) as [s1 code]. cbn [fst] in *. rewrite Hf. eauto.
+    - destruct (nth_error (s_net s) i); [|eauto]. cbn [fst]. apply deliver_dgram_rp. exact Hp.
+    - destruct (nth_error (s_net s) i); eauto.
+    - destruct (nth_error (s_net s) i); [|eauto]. cbn [fst].
+      destruct (deliver_dgram_rp cf (set_net s (remove_nth i (s_net s))) d p Hp) as [q [Hq Hs]].
+      destruct (poke_rp_some cf _ q Hq) as [q2 [Hq2 Hs2]].
+      destruct (deliver_dgram_rp cf _ d q2 Hq2) as [q3 [Hq3 Hs3]]. exists q3. split; [assumption|congruence].
+    - pose proof (pump_rp cf pump_fuel s 0 p Hp) as H. destruct (pump pump_fuel cf s 0). exact H.
+    - destruct (s_rd s); eauto.
+    - destruct (s_rd s); [eauto|]. rewrite Hp. rewrite orb_true_r. eauto.
+    - destruct (is_acked _ _); eauto.
+    - destruct (poll (s_waits s)). cbn. eauto.
+    - destruct (s_rd s) as [r|]; [|eauto]. destruct (negb _); [eauto|]. destruct (hist_received _); cbn; eauto.
+    - destruct (s_rd s) as [r|]; [|eauto]. destruct (poll (rd_hwaits r)). cbn. eauto. }
+  destruct H as [q [Hq Hs]]. destruct (act cf s a) as [s1 o]. cbn [fst] in *.
+  destruct (poke_rp_some cf s1 q Hq) as [q2 [Hq2 Hs2]]. exists q2. split; [assumption|congruence].
+Qed.
+
+Lemma step_NInv cf s a : NInv s -> NInv (fst (step cf s a)).
+Proof.
+  intros H. destruct (s_rp s) as [p|] eqn:Hp.
+  { destruct (step_rp cf s a p Hp) as [q [Hq _]]. intros Hn. congruence. }
+  destruct (H Hp) as [Hnet Hrd]. unfold step.
+  destruct a; cbn [act]; try (cbn; rewrite poke_rp_none by (cbn; assumption); intros _; cbn; tauto).
+  - pose proof (do_write_frame cf s key len sum) as (Hf1 & Hf2 & Hf3 & _).
+    destruct (do_write cf s key len sum) as [s1 code]. cbn [fst] in *.
+    rewrite poke_rp_none by congruence. intros _. rewrite Hf2, Hf3. tauto.
+  - rewrite Hnet. destruct i; cbn; rewrite poke_rp_none by assumption; exact H.
+  - rewrite Hnet. destruct i; cbn; rewrite poke_rp_none by assumption; exact H.
+  - rewrite Hnet. destruct i; cbn; rewrite poke_rp_none by assumption; exact H.
+  - unfold pump_fuel. cbn. rewrite Hnet. cbn. rewrite poke_rp_none by assumption. exact H.
+  - destruct (s_rd s) as [r|] eqn:Er; cbn; rewrite poke_rp_none by (cbn; assumption); [|exact H].
+    intros _; cbn; tauto.
+  - destruct (s_rd s) as [r|] eqn:Er; [cbn; rewrite poke_rp_none by assumption; exact H|].
+    rewrite Hp. rewrite orb_false_r. destruct (s_rdead s); cbn [orb].
+    + cbn. rewrite poke_rp_none by assumption. exact H.
+    + destruct (rxo_ok cf rel tl).
+      * cbn [fst]. intros Hn. exfalso.
+        match type of Hn with s_rp (poke cf (poke cf ?st)) = None =>
+          destruct (poke_rp_some cf st _ eq_refl) as [q [Hq _]];
+          destruct (poke_rp_some cf _ q Hq) as [q2 [Hq2 _]] end.
+        congruence.
+      * cbn. rewrite poke_rp_none by (cbn; assumption). intros _; cbn; tauto.
+  - rewrite Hp. cbn. rewrite poke_rp_none by (cbn; assumption). intros _; cbn; tauto.
+  - destruct (poll (s_waits s)). cbn. rewrite poke_rp_none by (cbn; assumption). intros _; cbn; tauto.
+  - destruct (s_rd s) as [r|] eqn:Er; [|cbn; rewrite poke_rp_none by assumption; exact H].
+    destruct (negb (rd_tl r)); [cbn; rewrite poke_rp_none by assumption; exact H|].
+    destruct (hist_received (rd_wp r)); cbn; rewrite poke_rp_none by (cbn; assumption); intros _; cbn; tauto.
+  - destruct (s_rd s) as [r|] eqn:Er; [|cbn; rewrite poke_rp_none by assumption; exact H].
+    destruct (poll (rd_hwaits r)). cbn; rewrite poke_rp_none by (cbn; assumption); intros _; cbn; tauto.
+Qed.
+
+Lemma run_NInv cf l : forall s, NInv s -> NInv (run cf s l).
+Proof.
+  unfold run. induction l as [|a t IH]; intros s H; cbn; [assumption|].
+  pose proof (step_NInv cf s a H) as Hs. destruct (step cf s a) as [s1 o]. cbn [fst] in Hs.
+  specialize (IH s1 Hs). destruct (run_out cf s1 t) as [s2 os]. exact IH.
+Qed.
+
+Lemma init_NInv : NInv init.
+Proof. intros _. cbn. tauto. Qed.
